@@ -152,11 +152,23 @@ class Lib:
                     if is_scalar(j):
                         j = to_int(j)
                         return st.alloc(ArrData((d.shape[0],), lambda i: d.sel(i, j), d.kind))
+                    ja = as_array(j, st) if isinstance(j, Ref) else None
+                    if ja is not None and ja.kind == "i" and ja.ndim == 1:
+                        # a[:, idx]: column gather
+                        r = ArrData((d.shape[0], ja.shape[0]), lambda i, t: d.sel(i, to_int(ja.sel(t))), d.kind)
+                        r.col_gather_of = (d, ja)
+                        return st.alloc(r)
                 if idx[1] is None and idx[0] is not None:
                     i0 = E.eval(idx[0], st)
                     if is_scalar(i0):
                         i0 = to_int(i0)
                         return st.alloc(ArrData((d.shape[1],), lambda j: d.sel(i0, j), d.kind))
+                    ia0 = as_array(i0, st) if isinstance(i0, Ref) else None
+                    if ia0 is not None and ia0.kind == "i" and ia0.ndim == 1:
+                        # a[idx, :]: row gather
+                        r = ArrData((ia0.shape[0], d.shape[1]), lambda t, j: d.sel(to_int(ia0.sel(t)), j), d.kind)
+                        r.gather_of = (d, ia0)
+                        return st.alloc(r)
             raise Unsupported("tuple index " + unparse(sl))
         v = E.eval(sl, st)
         if is_scalar(v) and not _isbool(v):
@@ -170,7 +182,9 @@ class Lib:
         ia = as_array(v, st)
         if ia is not None and ia.kind == "i" and ia.ndim == 1:
             # gather
-            return st.alloc(ArrData((ia.shape[0],) + d.shape[1:], lambda t, *r: d.sel(to_int(ia.sel(t)), *r), d.kind))
+            g = ArrData((ia.shape[0],) + d.shape[1:], lambda t, *r: d.sel(to_int(ia.sel(t)), *r), d.kind)
+            g.gather_of = (d, ia)
+            return st.alloc(g)
         if ia is not None and ia.kind == "b" and ia.ndim == 1:
             return self.filter(E, d, ia, st)
         if isinstance(v, Opaque):
@@ -263,6 +277,19 @@ class Lib:
             ii = [to_int(x) for x in idx]
             old = d.sel
             return ArrData(d.shape, lambda *i: _ite_val(z3.And(*[a == b for a, b in zip(i, ii)]), v, old(*i)), _join_kind(kind, v))
+        if isinstance(idx, IxTuple) and len(idx) == 2 and d.ndim == 2:
+            # a[np.ix_(r, c)] = M: M[s, t] lands at (r[s], c[t]) (some occurrence for repeated indices)
+            ra, ca = as_array(idx[0], st), as_array(idx[1], st)
+            if ra is None or ca is None or ra.kind != "i" or ca.kind != "i":
+                raise Unsupported("np.ix_ store")
+            memr, witr = membership(E, ra, st)
+            memc, witc = membership(E, ca, st)
+            old = d.sel
+            if va is not None and va.ndim == 2:
+                return ArrData(d.shape, lambda i, j: _ite_val(z3.And(memr(i), memc(j)), va.sel(witr(i), witc(j)), old(i, j)), kind)
+            if va is None and is_scalar(v):
+                return ArrData(d.shape, lambda i, j: _ite_val(z3.And(memr(i), memc(j)), v, old(i, j)), _join_kind(kind, v))
+            raise Unsupported("np.ix_ store of " + repr(v))
         ia = as_array(idx, st)
         if ia is not None and ia.ndim == 1 and isinstance(ia.shape[0], int) and ia.shape[0] == 0:
             return d      # empty index list: nothing stored
@@ -531,6 +558,10 @@ def _join_kind(kind, v):
     if k == "f":
         return "f"
     return kind
+
+
+class IxTuple(tuple):
+    """value of np.ix_(rows, cols): an open mesh used only as a subscript"""
 
 
 def _ite_val(c, a, b):
@@ -1156,7 +1187,7 @@ def register_builtins(L):
         "np.var", "np.dot", "np.matmul", "np.exp", "np.log", "np.abs", "np.sqrt", "np.square", "np.nan_to_num", "np.tile", "np.searchsorted",
         "np.isin", "np.argsort", "np.sort", "np.stack", "np.vstack", "np.hstack", "np.linalg.norm", "np.average", "np.cumsum", "np.diff",
         "np.clip", "np.round", "np.floor", "np.ceil", "np.prod", "np.eye", "np.diag", "np.outer", "np.einsum", "np.take_along_axis",
-        "np.argpartition", "np.delete", "np.ix_", "np.meshgrid", "np.linspace", "np.isfinite", "np.isinf", "np.sign", "np.power")
+        "np.argpartition", "np.delete", "np.meshgrid", "np.linspace", "np.isfinite", "np.isinf", "np.sign", "np.power")
     def _np_pure(E, st, args, kw, node):
         """numpy functions without a contract here: the result is unknown, the arguments are NOT modified (pure functions)"""
         name = unparse(node.func)
@@ -1164,6 +1195,10 @@ def register_builtins(L):
         st.events.append(("call", name, args, kw, r, {a.id: st.heap.get(a.id) for a in list(args) + list(kw.values()) if isinstance(a, Ref)}))
         E.abstracted.add(name + " (pure, result unknown)")
         return r
+
+    @fn("np.ix_")
+    def _np_ix(E, st, args, kw, node):
+        return IxTuple(args)
 
     @fn("np.isscalar")
     def _np_isscalar(E, st, args, kw, node):
